@@ -569,7 +569,13 @@ spifconf_shell_expand(spif_charptr_t s)
                   }
               }
               if (!builtins[k].name) {
-                  newbuff[j] = *pbuff;
+                  if (*pbuff) {
+                      newbuff[j] = *pbuff;
+                  } else {
+                      /* A % at the very end; keep it and stay on it. */
+                      pbuff--;
+                      newbuff[j] = *pbuff;
+                  }
               } else {
                   D_CONF(("Call to built-in function %s detected.\n", builtins[k].name));
                   Command = (spif_charptr_t) MALLOC(CONFIG_BUFF);
